@@ -116,12 +116,18 @@ func shapeFamilies() []shapeFamily {
 		"escaped-quotes-and-escapes":           func(n int) string { return `"` + rep("\\"+`"`+"\\"+`n`+U("00e9"), n) + `"` },
 		"plain-then-late-escapes":              func(n int) string { return `"` + rep("x", n*4) + rep(U("d83d")+U("de00"), n) + `"` },
 		"deep-arrays":                          func(n int) string { return rep("[", n) + rep("]", n) },
-		"deep-objects":                         func(n int) string { return rep(`{"a":`, n) + "1" + rep("}", n) },
-		"deep-with-siblings":                   func(n int) string { return rep("[[],", n) + "1" + rep("]", n) },
-		"wide-numbers":                         func(n int) string { return bigArray(n, "1.5e3") },
-		"wide-strings":                         func(n int) string { return bigArray(n, `"abcdefgh"`) },
-		"wide-bools-nulls":                     func(n int) string { return bigArray(n, "true,null") },
-		"wide-object-of-objects":               func(n int) string { return "{" + strings.TrimSuffix(rep(`"k":{"a":1},`, n), ",") + "}" },
+		"long-string-then-deep-nesting":        func(n int) string { return `["` + rep("x", n*8) + `",` + rep("[", n) + rep("]", n) + "]" },
+		"long-escaped-key-then-deep-nesting": func(n int) string {
+			return `{"` + "\\" + `t` + rep("k", n*8) + `":` + rep(`{"a":`, n) + "1" + rep("}", n) + "}"
+		},
+		"long-escaped-strings-wide":           func(n int) string { return bigArray(n/8+1, `"`+"\\"+`n`+rep("y", 300)+`"`) },
+		"long-escaped-strings-at-every-level": func(n int) string { return rep(`["`+"\\"+`n`+rep("y", 300)+`",`, n/8+1) + "1" + rep("]", n/8+1) },
+		"deep-objects":                        func(n int) string { return rep(`{"a":`, n) + "1" + rep("}", n) },
+		"deep-with-siblings":                  func(n int) string { return rep("[[],", n) + "1" + rep("]", n) },
+		"wide-numbers":                        func(n int) string { return bigArray(n, "1.5e3") },
+		"wide-strings":                        func(n int) string { return bigArray(n, `"abcdefgh"`) },
+		"wide-bools-nulls":                    func(n int) string { return bigArray(n, "true,null") },
+		"wide-object-of-objects":              func(n int) string { return "{" + strings.TrimSuffix(rep(`"k":{"a":1},`, n), ",") + "}" },
 	}
 	var names []string
 	for k := range docs {
@@ -149,6 +155,14 @@ func shapeFamilies() []shapeFamily {
 			}),
 		)
 	}
+	fams = append(fams,
+		one("HandleArrayValues+ReadString(nil)/long-escaped-strings-wide", docs["long-escaped-strings-wide"], func(b []byte) {
+			rjson.HandleArrayValues(b, rjson.ArrayValueHandlerFunc(func(d []byte) (int, error) { _, p, err := rjson.ReadString(d, nil); return p, err }), nil)
+		}),
+		one("HandleArrayValues+ReadStringBytes(nil)/long-escaped-strings-wide", docs["long-escaped-strings-wide"], func(b []byte) {
+			rjson.HandleArrayValues(b, rjson.ArrayValueHandlerFunc(func(d []byte) (int, error) { _, p, err := rjson.ReadStringBytes(d, nil); return p, err }), nil)
+		}),
+	)
 	// reused reader: one large document, then n small ones
 	reusedVia := func(name string, first string, big func(n int) string, small string) shapeFamily {
 		return shapeFamily{name, func(n int) measure {
@@ -192,6 +206,7 @@ func shapeFamilies() []shapeFamily {
 		reused("reused-reader/big-array-then-failing-small-docs", func(n int) string { return bigArray(n*20, "1") }, `[1,`),
 		reusedVia("reused-reader/ReadArray-big-array-then-nulls", "ReadArray", func(n int) string { return bigArray(n*20, "1") }, `null`),
 		reusedVia("reused-reader/ReadObject-big-object-then-failing-small-docs", "ReadObject", func(n int) string { return bigObject(n * 5) }, `{"a":1,`),
+		reused("reused-reader/long-string-then-small-deep-docs", func(n int) string { return `["` + rep("x", n*40) + `"]` }, `[[[[[[[[1]]]]]]]]`),
 		reused("reused-reader/big-object-then-small-docs", bigObject, `{"a":{"b":1}}`),
 		reused("reused-reader/big-object-in-array-then-small-docs", func(n int) string { return "[" + bigObject(n) + ",{}]" }, `[{"a":1},{"b":{}}]`),
 		reused("reused-reader/big-array-then-small-docs", func(n int) string { return bigArray(n, "[1]") }, `[[1],[2]]`),
@@ -227,6 +242,8 @@ func c20ShapesChild() {
 	out := bufio.NewWriter(os.Stdout)
 	defer out.Flush()
 	for _, f := range shapeFamilies() {
+		var prev, last measure
+		violated := false
 		for _, n := range sizes {
 			if strings.Contains(f.name, "deep") && n > 9000 {
 				continue
@@ -235,8 +252,22 @@ func c20ShapesChild() {
 			b, _ := json.Marshal(m)
 			fmt.Fprintf(out, "C20-MEASURE %s\n", b)
 			out.Flush()
+			prev, last = last, m
 			if m.Alloc > m.bound() {
+				violated = true
 				break
+			}
+		}
+		// adaptive deepening: while the cost still grows faster than 3x per doubling the family is
+		// followed to larger sizes (the absolute bound still decides; a linear family stops here)
+		for !violated && prev.Alloc > 0 && float64(last.Alloc) >= 3*float64(prev.Alloc) && last.N < 300000 && last.Alloc < 6<<30 && !strings.Contains(f.name, "deep") {
+			m := f.measure(last.N * 2)
+			b, _ := json.Marshal(m)
+			fmt.Fprintf(out, "C20-MEASURE %s\n", b)
+			out.Flush()
+			prev, last = last, m
+			if m.Alloc > m.bound() {
+				violated = true
 			}
 		}
 	}
